@@ -94,9 +94,9 @@ func zipContains(raw, sig []byte, msoCheck bool) bool {
 	}
 
 	for i := 0; i < 4; i++ {
-		if !b.advance(0x1A) {
-			return false
-		}
+		// b is at the file name of the previous header. The next header can
+		// follow right after a short name with no data (a directory entry),
+		// so the search starts here.
 		nextHeader = bytes.Index(b, pk)
 		if nextHeader == -1 {
 			return false
